@@ -33,3 +33,11 @@ Theorem C10_leaves_no_empty_table_in_range : forall P ch i base span rs re skip 
   all_empty sub = false.
 Proof. exact prune_children_no_empty. Qed.
 Print Assumptions C10_leaves_no_empty_table_in_range.
+
+(* tables that do not overlap the range (or sit in the recursive slot) are untouched *)
+Theorem C10_tables_outside_the_range_untouched : forall P ch i base span rs re skip j,
+  ((base + (i + Z.of_nat j) * span + span - 1 <? rs) || (re <? base + (i + Z.of_nat j) * span)
+     || (i + Z.of_nat j =? skip))%bool = true ->
+  child (fst (prune_children P ch i base span rs re skip)) j = child ch j.
+Proof. exact prune_children_untouched. Qed.
+Print Assumptions C10_tables_outside_the_range_untouched.
